@@ -315,6 +315,8 @@ ConcCase gen_conc(const std::string& property, const std::string& tier, uint64_t
     k = wl.pick(ks);
 #if defined(SIM_TSAN)
     if (wl.chance(0.04)) k = static_cast<int>(wl.range(9, 64));
+#else
+    if (wl.chance(0.015)) k = static_cast<int>(wl.pick(std::vector<int>{9, 16, 17, 32, 33, 64}));   // thread counts around powers of two, also without TSan
 #endif
     c.mode = (!is_c20 && wl.chance(0.25)) ? "faulted" : "free";
   }
@@ -434,7 +436,7 @@ static void gen_sched_knobs(Rng* scp, ConcCase* cp) {
   uint64_t ch = sc.below(100);
   if (ch < 30) c.sched.chooser = CH_UNIFORM;
   else if (ch < 55) { c.sched.chooser = CH_STICKY; static const std::vector<double> ps = {0.5, 0.8, 0.95}; c.sched.sticky_p = sc.pick(ps); }
-  else if (ch < 75) { c.sched.chooser = CH_PCT; c.sched.pct_depth = static_cast<int>(sc.range(1, 3)); c.sched.pct_len = static_cast<int>(sc.range(20, 400)); }
+  else if (ch < 75) { c.sched.chooser = CH_PCT; c.sched.pct_depth = static_cast<int>(sc.pick(std::vector<int>{1, 2, 2, 3, 3, 4, 5})); c.sched.pct_len = static_cast<int>(sc.range(20, 400)); }
   else c.sched.chooser = CH_WINDOW;
   for (int kind : {Y_OP, Y_READ, Y_SKIP, Y_SRC_DTOR, Y_FACTORY_MID, Y_FACTORY_OUT, Y_ATOMIC_LD, Y_ATOMIC_ST, Y_UNLOCK})
     if (sc.chance(0.15)) c.sched.disabled_kinds |= (1u << kind);
